@@ -98,7 +98,7 @@ func c12Where(root, n ast.Vertex) string {
 func init() {
 	core.Register(&core.Check{
 		ID:   "C12",
-		Rule: "cases = G5 synthetic nodes: every node kind x slot subsets (all 2^k for k<=12, else single/double toggles + PRNG subsets), the Stmt slot alternately holding a nested StmtStmtList  ++  trees parsed from corpus/hostile inputs under PRNG versions; non-trivial = a tree with at least 2 nodes was traversed; distinct by (kind, subset) / (input, version)",
+		Rule: "cases = G5 synthetic nodes: every node kind x slot subsets (all 2^k for k<=12, else single/double toggles + PRNG subsets), the Stmt slot alternately holding a nested StmtStmtList  ++  trees parsed from the shared parse workload (corpus, hostile inputs, generated programs of both families in PRNG layouts) under PRNG versions; non-trivial = a tree with at least 2 nodes was traversed; distinct by (kind, subset) / (input, version)",
 		Assumptions: []string{
 			"the reflection walk over exported ast.Vertex / []ast.Vertex fields in declaration order defines 'the tree' and slot order",
 			"source order of siblings is judged by StartPos on error-free parses only (positions of trees with errors may be partial)",
@@ -125,10 +125,8 @@ func init() {
 				}
 				return
 			}
-			r := core.NewRand(c.P.Seed, "C12in", idx)
-			src := gen.Hostile(r, nil)
-			ver := gen.VersionsAll[r.Intn(len(gen.VersionsAll))]
-			c12Input(c, src, ver)
+			pc := genParseCase(c.P.Seed, "C12in", idx, 30)
+			c12Input(c, pc.Src, pc.Ver)
 		},
 		RunWitness: func(c *core.Ctx, w core.Witness) { c12Input(c, w.Src, w.Ver) },
 	})
